@@ -15,7 +15,7 @@ FRACS = [(1, 6), (1, 3), (1, 2), (2, 3), (1, 1), (4, 3), (3, 2), (2, 1)]
 ASSUME = [
     "project start Monday 2025-01-06, default calendar (Mon-Fri 09-17), UTC, one or two leaf resources",
     "mode B alphabet: place(f, link), f in {1/6,1/3,1/2,2/3,1,4/3,3/2,2} slots of effort, link in {chained to the previous task, independent}; "
-    "efficiency {1, 0.5}; L in {60, 30} min; forward and backward (project ALAP) mirror",
+    "efficiency {1, 0.5}; L in {60, 30} min (thorough: + 20 and 5 min); forward and backward (project ALAP) mirror",
     "layout clause is the interval (preemptive) feasibility test with 1 s tolerance per task for the rounding of reported times",
 ]
 
@@ -37,7 +37,7 @@ def history_spec(cfg, hist):
 
 def histories(tier):
     depth = 3 if tier == "quick" else 4
-    cfgs = [(L, eff, alap) for L in (60, 30) for eff in (1.0, 0.5) for alap in (False, True)]
+    cfgs = [(L, eff, alap) for L in ((60, 30) if tier == "quick" else (60, 30, 20, 5)) for eff in (1.0, 0.5) for alap in (False, True)]
     ops = [(fi, link) for fi in range(len(FRACS)) for link in (0, 1)]
     for d in range(1, depth + 1):
         for cfg in cfgs:
